@@ -61,6 +61,16 @@ func main() {
 	}
 }
 
+func keepNewlines(t string) string {
+	b := []byte(t)
+	for i := range b {
+		if b[i] != '\n' {
+			b[i] = ' '
+		}
+	}
+	return string(b)
+}
+
 func mutateFile(repo, path string) []mutant {
 	src, err := os.ReadFile(path)
 	if err != nil {
@@ -128,6 +138,26 @@ func mutateFile(repo, path string) []mutant {
 		case *ast.IfStmt:
 			s, e := off(x.Cond.Pos()), off(x.Cond.End())
 			add("negate-if", s, e, "!("+string(src[s:e])+")", x.Cond.Pos())
+			// second generation of operators: a guard removed altogether, an else branch dropped
+			if x.Else == nil && x.Init == nil {
+				a, b := off(x.Pos()), off(x.End())
+				add("delete-if-statement", a, b, keepNewlines(string(src[a:b])), x.Pos())
+			}
+			if blk, ok := x.Else.(*ast.BlockStmt); ok {
+				a, b := off(x.Body.End()), off(blk.End())
+				add("delete-else", a, b, keepNewlines(string(src[a:b])), blk.Pos())
+			}
+		case *ast.CallExpr:
+			// a copying helper bypassed: the value is passed on as it is
+			if id, ok := x.Fun.(*ast.Ident); ok && len(x.Args) == 1 && (strings.HasPrefix(strings.ToLower(id.Name), "copy") || strings.HasPrefix(strings.ToLower(id.Name), "clone")) {
+				a, b := off(x.Pos()), off(x.End())
+				as, ae := off(x.Args[0].Pos()), off(x.Args[0].End())
+				add("unwrap-copy", a, b, string(src[as:ae]), x.Pos())
+			}
+		case *ast.SliceExpr:
+			if lit, ok := x.Low.(*ast.BasicLit); ok && lit.Kind == token.INT && lit.Value == "1" {
+				add("slice-low 1->0", off(lit.Pos()), off(lit.End()), "0", lit.Pos())
+			}
 		case *ast.ForStmt:
 			if x.Cond != nil {
 				s, e := off(x.Cond.Pos()), off(x.Cond.End())
